@@ -7,7 +7,10 @@
    A valuation [val : nat -> Q] gives every column a value.  [order] is the elimination order; the
    theorems hold for EVERY order that eliminates every variable ([order_ok]). *)
 From Coq Require Import List Arith QArith.
-From AIT Require Import Base.Qx C15.Model C15.Spec C15.ProofsBase C15.ProofsGraph C15.ProofsVE C15.ProofsSetup C15.Proofs C15.ProofsMdp.
+From AIT Require C14.Model C14.Spec C14.ModelAlg C14.SpecAlg C14.ProofsAlg C14.ModelDDN C14.SpecDDN C14.ProofsDDN C14.Model2D C14.Spec2D.
+From AIT Require C15.ModelQ C15.ProofsQ.
+From AIT Require Import Base.Qx C15.Model C15.Spec C15.ProofsBase C15.ProofsGraph C15.ProofsVE C15.ProofsSetup C15.Proofs C15.ProofsMdp
+                        C15.ProofsOrder C15.ProofsConst C15.ProofsMdpSetup C15.ProofsMdpFull C15.ProofsMdpC14.
 Import ListNotations.
 
 (* The oracle's exact checker: the max-norm error over all joint assignments is below phi exactly
@@ -61,23 +64,21 @@ Theorem factored_optimum_eq_flat : forall S C b addConst order (m : Q),
 Proof. exact flp_optimum_lemma. Qed.
 Print Assumptions factored_optimum_eq_flat.
 
-(* STRETCH, PARTIAL (factored-MDP LinearProgramming::solveLP): the elimination part — one chain,
+(* STRETCH (factored-MDP LinearProgramming::solveLP), component 1: the elimination part — one chain,
    "newFactor >= sum of rules" per eliminated assignment, final row "sum of final factors <= 0" as
    repaired by fixes/C15-mdp-lp-final-factors.patch — for ANY initial rule graph g0 over the joint
    (state, action) variables: the generated system is satisfiable by some valuation of the new columns
    exactly when the graph's total value is <= 0 at EVERY joint assignment, for every elimination order.
-   Full statement (not proved): with g0 = the rules of  R(s,a) + sum_k w_k (gamma g_k(s,a) - h_k(s))
-   built by [mlp_setup], [gval S val0 g0 x] is that expression, i.e. the flat constraint
-   V_w(s) >= R(s,a) + gamma sum_s' P(s'|s,a) V_w(s').  ([gval] = sum over the graph's nodes of the
+   (Combined below with the rule set-up into [mdp_lp_eq_flat].)  ([gval] = sum over the graph's nodes of the
    rules matching x; [galign]/[gin]/[gdone] = column allocation and tag well-formedness.) *)
-Theorem mdp_lp_elimination_eq_pointwise_partial : forall S g0 n0 rows0 order val0,
+Theorem mdp_lp_elimination_eq_pointwise : forall S g0 n0 rows0 order val0,
   Forall (fun s => (0 < s)%nat) S -> order_ok S order ->
   gin S g0 -> gdone [] g0 -> galign 1 n0 g0 [] -> rows_lt n0 rows0 -> feasible val0 rows0 ->
   let st := run_ve 1 S (g0, [], n0, rows0) order in
   ((exists val, agree n0 val val0 /\ feasible val (st_rows st ++ mlp_result_rows (st_fin st)))
    <-> (forall x, in_space S x -> gval S val0 g0 x <= 0)).
 Proof. exact ve_projection_lemma. Qed.
-Print Assumptions mdp_lp_elimination_eq_pointwise_partial.
+Print Assumptions mdp_lp_elimination_eq_pointwise.
 
 (* The code as it stands in the unrepaired tree (one row "f <= 0" per final factor) cuts off a
    flat-feasible point: two independent components with maxima +1 and -1 (total 0 <= 0 at the only
@@ -90,6 +91,120 @@ Theorem mdp_lp_final_rows_unrepaired_refuted :
   (exists val, agree 2 val cex_val0 /\ feasible val (st_rows st ++ mlp_result_rows (st_fin st))).
 Proof. exact mlp_orig_refuted_lemma. Qed.
 Print Assumptions mdp_lp_final_rows_unrepaired_refuted.
+
+(* ---- round 2 ------------------------------------------------------------------------------- *)
+
+(* The elimination order the code itself uses (modelled FactorGraph::bestVariableToRemove loop)
+   eliminates every variable exactly once: [order_ok] holds for it, for every graph. *)
+Theorem code_order_ok : forall S g, order_ok S (heur_order S g) /\ NoDup (heur_order S g).
+Proof. exact (fun S g => conj (heur_order_ok S g) (heur_order_nodup S g)). Qed.
+Print Assumptions code_order_ok.
+
+(* FactoredLP for EVERY basis set — including "constant basis and no explicit basis", as repaired by
+   fixes/C15-flp-constant-without-basis.patch ([flp_rows_r]; identical to [flp_rows] otherwise) — and
+   for the code's own elimination order: the projection onto (w, phi) is the flat system. *)
+Theorem factored_projection_eq_flat_code_order : forall S C b addConst (w : nat -> Q) phi,
+  inputs_wf_r S C b addConst ->
+  ((exists val, (forall k, (k < nweights C addConst)%nat -> val k == w k) /\
+                val (nweights C addConst) == phi /\
+                feasible val (flp_rows_r S C b addConst (flp_order_r S C b addConst)))
+   <-> flat_feasible S C b addConst w phi).
+Proof. exact flp_code_projection_lemma. Qed.
+Print Assumptions factored_projection_eq_flat_code_order.
+
+Theorem factored_projection_eq_flat_any_basis_set : forall S C b addConst order (w : nat -> Q) phi,
+  inputs_wf_r S C b addConst -> order_ok S order ->
+  ((exists val, (forall k, (k < nweights C addConst)%nat -> val k == w k) /\
+                val (nweights C addConst) == phi /\
+                feasible val (flp_rows_r S C b addConst order))
+   <-> flat_feasible S C b addConst w phi).
+Proof. exact flp_projection_r_lemma. Qed.
+Print Assumptions factored_projection_eq_flat_any_basis_set.
+
+(* The unrepaired code with a constant basis and no explicit basis (1.0 / C.bases.size() = 1/0, no
+   row mentions the constant's weight): target (5, 7) over one binary factor; the constant 6 has
+   max-norm error 1, but every point of the system the code builds has phi >= 7. *)
+Theorem flp_constant_without_basis_unrepaired_refuted :
+  let S := [2%nat] in let b := [mkBf [0%nat] [5; 7]] in
+  flat_feasible S [] b true (fun _ => 6) 1 /\
+  (forall val, feasible val (flp_rows S [] b true [0%nat]) -> 7 <= val 1%nat).
+Proof. exact flp_constant_only_unrepaired_refuted_lemma. Qed.
+Print Assumptions flp_constant_without_basis_unrepaired_refuted.
+
+(* Factored-MDP LP, component 2 + combination (self-contained): for ANY g handed to the rule set-up,
+   the whole system [mlp_rows] (h rules, gamma*g rules, R rules — entries with |v| <= 1e-6 skipped
+   — elimination, repaired final row) is satisfiable for weights w  <->
+       R(s,a) + sum_k w_k (gamma g_k(s,a) - h_k(s)) <= 0   at every joint (s, a),
+   every entry below 1e-6 read as 0 ([mlp_flat_c]); any order eliminating all of S ++ A. *)
+Theorem mdp_lp_rules_eq_flat : forall S A h g R gam order (w : nat -> Q),
+  mlp_wf S A h g R -> order_ok (S ++ A) order ->
+  ((exists val, agree (length h) val w /\ feasible val (mlp_rows S A h g R gam order))
+   <-> (forall s a, in_space S s -> in_space A a -> mlp_flat_c S A h g R gam w s a <= 0)).
+Proof. exact mlp_projection_c_lemma. Qed.
+Print Assumptions mdp_lp_rules_eq_flat.
+
+(* THE FULL STATEMENT (DESIGN 4, C15.S second clause): with g = backProject(T, h) (C14's model and
+   theorem backproject_is_expectation), no entry tiny-but-non-zero ([bf_exact]/[bm_exact]: the
+   checkEqualSmall skip is then exact), the factored MDP LP is satisfiable for w exactly when
+       V_w(s) >= R(s,a) + gamma * sum_s1 P(s1 | s, a) * V_w(s1)    at every joint (s, a)
+   ([bellman_ok]; P = DDN::getTransitionProbability, V_w = sum_k w_k h_k). *)
+Theorem mdp_lp_eq_flat : forall G T (h14 : list C14.ModelAlg.bf) R gam order (w : nat -> Q),
+  let S := C14.ModelDDN.gS G in let A := C14.ModelDDN.gA G in
+  let h := map conv_bf h14 in let g := map conv_bm (map (C14.ModelDDN.backProject G T) h14) in
+  C14.ProofsDDN.graph_built G -> C14.SpecDDN.graph_complete G ->
+  Forall (fun f => C14.SpecAlg.bf_wf S f /\ C14.ProofsAlg.strict (C14.ModelAlg.bfTag f)) h14 ->
+  (forall s a, in_space S s -> in_space A a -> C14.SpecDDN.rows_stochastic G T s a) ->
+  mlp_wf S A h g R -> order_ok (S ++ A) order ->
+  Forall bf_exact h -> Forall bm_exact g -> Forall bm_exact R ->
+  ((exists val, agree (length h) val w /\ feasible val (mlp_rows S A h g R gam order))
+   <-> (forall s a, in_space S s -> in_space A a ->
+          bellman_ok S A h R gam (C14.ModelDDN.getTransitionProbability G T) w s a)).
+Proof. exact mdp_lp_eq_flat_lemma. Qed.
+Print Assumptions mdp_lp_eq_flat.
+
+(* hence equal optima, for every objective that reads only the weights (the code minimises
+   sum_k w_k * mean(h_k)); stated for any g that is the expectation of h under some P *)
+Theorem mdp_lp_optimum_eq_flat : forall S A h g R gam P order (obj : (nat -> Q) -> Q) (m : Q),
+  mlp_wf S A h g R -> order_ok (S ++ A) order ->
+  Forall bf_exact h -> Forall bm_exact g -> Forall bm_exact R ->
+  is_backprojection S A P h g ->
+  (forall val val', agree (length h) val val' -> obj val == obj val') ->
+  ((forall val, feasible val (mlp_rows S A h g R gam order) -> m <= obj val)
+   <-> (forall w, (forall s a, in_space S s -> in_space A a -> bellman_ok S A h R gam P w s a) -> m <= obj w)).
+Proof. exact mlp_optimum_lemma. Qed.
+Print Assumptions mdp_lp_optimum_eq_flat.
+
+(* the code's own order for the MDP LP *)
+Theorem mdp_lp_code_order_ok : forall S A h g R gam, order_ok (S ++ A) (mlp_order S A h g R gam).
+Proof. exact mlp_order_ok. Qed.
+Print Assumptions mdp_lp_code_order_ok.
+
+(* q_is_backup: the Q-function LinearProgramming::operator() returns ([lp_result_q] = backProject,
+   operator*=(discount * v), plusEqual(…, R) — C14's models) has, at every joint (s, a), the flat value
+       R(s,a) + gamma * sum_s1 P(s1 | s, a) * V_w(s1).
+   [fm_ok R] = R's tags in range and non-empty, one row per partial state / one column per partial action
+   (what CooperativeModel's constructor validates). *)
+Theorem q_is_backup : forall G T h R gam w s a,
+  C14.ProofsDDN.graph_built G -> C14.SpecDDN.graph_complete G ->
+  Forall (fun f => C14.SpecAlg.bf_wf (C14.ModelDDN.gS G) f /\ C14.ProofsAlg.strict (C14.ModelAlg.bfTag f)) h ->
+  C15.ProofsQ.fm_ok (C14.ModelDDN.gS G) (C14.ModelDDN.gA G) R ->
+  length w = length h ->
+  C14.Spec.in_space (C14.ModelDDN.gS G) s -> C14.Spec.in_space (C14.ModelDDN.gA G) a -> C14.SpecDDN.rows_stochastic G T s a ->
+  C14.Spec2D.flat2 (C14.ModelDDN.gS G) (C14.ModelDDN.gA G) (C15.ModelQ.lp_result_q G T h R gam w) s a ==
+  C14.Spec2D.flat2 (C14.ModelDDN.gS G) (C14.ModelDDN.gA G) R s a +
+  gam * C14.SpecDDN.qsum (map (fun s1 => C14.ModelDDN.getTransitionProbability G T s a s1 * C14.SpecAlg.wsum (C14.ModelDDN.gS G) h s1 w)
+                              (C14.SpecDDN.all_assign (C14.ModelDDN.gS G))).
+Proof. exact C15.ProofsQ.q_is_backup_full_lemma. Qed.
+Print Assumptions q_is_backup.
+
+Example ex_mlp_nonvacuous :
+  let S := [2%nat] in let A := [2%nat] in
+  let h := [mkBf [0%nat] [1; 1]] in let g := [mkBm [0%nat] [0%nat] [[1; 1]; [1; 1]]] in
+  let R := [mkBm [0%nat] [0%nat] [[1; 0]; [0; 2]]] in
+  mlp_wf S A h g R /\ order_ok (S ++ A) [0%nat; 1%nat] /\
+  Forall bf_exact h /\ Forall bm_exact g /\ Forall bm_exact R /\
+  is_backprojection S A (fun _ _ _ => 1 # 2) h g.
+Proof. exact ex_mlp_lemma. Qed.
 
 (* hypotheses are satisfiable on a non-trivial input: two overlapping bases + constant basis over a
    2 x 3 space, a target on one factor, the order (1, 0); (w, phi) = (0, 5) is flat-feasible *)
